@@ -808,7 +808,10 @@ fn check_passthrough(ctx: &mut Ctx, done: Vec<Done>) {
             bad.push(format!("method {} != {}", r.method, c.method));
         }
         if r.version != format!("{:?}", req.version()) {
-            bad.push("version".into());
+            bad.push(format!("version {} != {:?}", r.version, req.version()));
+        }
+        if !r.extension_kept {
+            bad.push("request extensions lost".into());
         }
         if r.headers != submitted_headers {
             bad.push("headers".into());
